@@ -340,57 +340,62 @@ Definition py_nth {A} (l : list A) (i : Z) : pyres A :=
 Definition zdiff (a b : list Z) : list Z := filter (fun x => negb (zmem x b)) a.
 
 (* the `if contract:` block of smiles(): (reactants, products, reagents) texts -> the same after contraction *)
+(* new_molecules[i] = v *)
+Definition cr_set_new (nm : list (option (list ascii))) (i : Z) (v : list ascii) : pyres (list (option (list ascii))) :=
+  match (if i <? 0 then None else list_set nm (Z.to_nat i) (Some v)) with Some nm' => Ok nm' | None => Err IndexError end.
+(* '.'.join(src[x - shift] for x in c) *)
+Definition cr_joined (src : list (list ascii)) (shift : Z) (c : list Z) : pyres (list ascii) :=
+  match map_res (fun x => py_nth src (x - shift)) c with Ok l => Ok (join_with "." l) | Err e => Err e end.
+Definition cr_state := (list Z * list Z * list Z * list (option (list ascii)))%type.   (* reactants, reagents, products, new_molecules *)
+(* for c in contract *)
+Fixpoint cr_go (R P G : list (list ascii)) (lr mol_count : Z) (cs : list (list Z)) (st : cr_state) : pyres cr_state :=
+  match cs with
+  | [] => Ok st
+  | c :: r =>
+      let '(sr, sg, sp, nm) := st in
+      let c0 := match c with x :: _ => x | [] => 0 end in
+      if subset_z c sr then
+        match cr_joined R 0 c with Err e => Err e | Ok v => match cr_set_new nm c0 v with Err e => Err e | Ok nm' => cr_go R P G lr mol_count r (zdiff sr c, sg, sp, nm') end end
+      else if subset_z c sp then
+        match cr_joined P mol_count c with Err e => Err e | Ok v => match cr_set_new nm c0 v with Err e => Err e | Ok nm' => cr_go R P G lr mol_count r (sr, sg, zdiff sp c, nm') end end
+      else if subset_z c sg then
+        match cr_joined G lr c with Err e => Err e | Ok v => match cr_set_new nm c0 v with Err e => Err e | Ok nm' => cr_go R P G lr mol_count r (sr, zdiff sg c, sp, nm') end end
+      else cr_go R P G lr mol_count r st
+  end.
+(* for x in <remaining set>: new_molecules[x] = src[x - shift] *)
+Fixpoint cr_fill (src : list (list ascii)) (shift : Z) (xs : list Z) (nm : list (option (list ascii))) : pyres (list (option (list ascii))) :=
+  match xs with
+  | [] => Ok nm
+  | x :: r => match py_nth src (x - shift) with
+              | Err e => Err e
+              | Ok v => match cr_set_new nm x v with Err e => Err e | Ok nm' => cr_fill src shift r nm' end
+              end
+  end.
+Definition cr_some (l : list (option (list ascii))) : list (list ascii) :=
+  flat_map (fun (o : option (list ascii)) => match o with Some x => [x] | None => [] end) l.
+
 Definition contract_roles (contract : list (list Z)) (R P G : list (list ascii))
   : pyres (list (list ascii) * list (list ascii) * list (list ascii)) :=
   let lr := Z.of_nat (List.length R) in let lp := Z.of_nat (List.length P) in
   let mol_count := lr + lp + Z.of_nat (List.length G) in
-  let set_new (nm : list (option (list ascii))) (i : Z) (v : list ascii) : pyres (list (option (list ascii))) :=
-      match (if i <? 0 then None else list_set nm (Z.to_nat i) (Some v)) with Some nm' => Ok nm' | None => Err IndexError end in
-  let joined (src : list (list ascii)) (shift : Z) (c : list Z) : pyres (list ascii) :=
-      match map_res (fun x => py_nth src (x - shift)) c with Ok l => Ok (join_with "." l) | Err e => Err e end in
-  (* for c in contract *)
-  let fix go (cs : list (list Z)) (st : list Z * list Z * list Z * list (option (list ascii)))
-      : pyres (list Z * list Z * list Z * list (option (list ascii))) :=
-      match cs with
-      | [] => Ok st
-      | c :: r =>
-          let '(sr, sg, sp, nm) := st in
-          let c0 := match c with x :: _ => x | [] => 0 end in
-          if subset_z c sr then
-            match joined R 0 c with Err e => Err e | Ok v => match set_new nm c0 v with Err e => Err e | Ok nm' => go r (zdiff sr c, sg, sp, nm') end end
-          else if subset_z c sp then
-            match joined P mol_count c with Err e => Err e | Ok v => match set_new nm c0 v with Err e => Err e | Ok nm' => go r (sr, sg, zdiff sp c, nm') end end
-          else if subset_z c sg then
-            match joined G lr c with Err e => Err e | Ok v => match set_new nm c0 v with Err e => Err e | Ok nm' => go r (sr, zdiff sg c, sp, nm') end end
-          else go r st
-      end in
-  match go contract (zrange 0 lr, zrange lr (mol_count - lp), zrange (mol_count - lp) mol_count,
-                     repeat None (Z.to_nat mol_count)) with
+  match cr_go R P G lr mol_count contract
+              (zrange 0 lr, zrange lr (mol_count - lp), zrange (mol_count - lp) mol_count, repeat None (Z.to_nat mol_count)) with
   | Err e => Err e
   | Ok (sr, sg, sp, nm) =>
-    let fix fill (src : list (list ascii)) (shift : Z) (xs : list Z) (nm : list (option (list ascii))) : pyres (list (option (list ascii))) :=
-        match xs with
-        | [] => Ok nm
-        | x :: r => match py_nth src (x - shift) with
-                    | Err e => Err e
-                    | Ok v => match set_new nm x v with Err e => Err e | Ok nm' => fill src shift r nm' end
-                    end
-        end in
-    match fill R 0 sr nm with
+    match cr_fill R 0 sr nm with
     | Err e => Err e
-    | Ok nm1 => match fill P mol_count sp nm1 with
+    | Ok nm1 => match cr_fill P mol_count sp nm1 with
                 | Err e => Err e
-                | Ok nm2 => match fill G lr sg nm2 with
+                | Ok nm2 => match cr_fill G lr sg nm2 with
                             | Err e => Err e
                             | Ok nm3 =>
-                              let some l := flat_map (fun (o : option (list ascii)) => match o with Some x => [x] | None => [] end) l in
                               let n := List.length nm3 in
                               let nlp := Z.to_nat lp in let nlr := Z.to_nat lr in
                               (* new_molecules[:lr], new_molecules[mol_count - lp:], new_molecules[lr: mol_count - lp]
                                  (n = mol_count >= lr + lp, so no index is negative) *)
                               let prod := skipn (n - nlp) nm3 in
                               let reag := skipn nlr (firstn (n - nlp) nm3) in
-                              Ok (some (firstn nlr nm3), some prod, some reag)
+                              Ok (cr_some (firstn nlr nm3), cr_some prod, cr_some reag)
                             end
                 end
     end
